@@ -71,6 +71,9 @@ def parse_address(text: str) -> Tuple[str, int]:
         text)
 
     if match:
+        if any(int(number) > 255 for number in match.groups()):
+            raise ValueError('Address number out of range')
+
         return (
             '{0}.{1}.{2}.{3}'.format(int(match.group(1)),
                                      int(match.group(2)),
